@@ -723,14 +723,20 @@ def traverse(node):
             continue
 
         child = traversing.child
+        stack.append(traversing._replace(is_finished=True))
+        yield traversing
+
+        # Every child gets its two events. Only the expansion of a container or
+        # an object is limited to the first time that we meet it.
+        if not isinstance(child, (list, tuple, dict, ParsedObject)):
+            continue
+
         child_id = id(child)
 
         if child_id in visited:
             continue
 
         visited.add(child_id)
-        stack.append(traversing._replace(is_finished=True))
-        yield traversing
 
         def extend(items):
             stack.extend(reversed(list(items)))
